@@ -4,6 +4,8 @@ fn main() {
   let n = |i: usize| -> u64 { a.get(i).map(|s| s.parse::<u64>().expect("u64 argument")).unwrap_or(0) };
   let ok = match a.get(1).map(|s| s.as_str()).unwrap_or("") {
     "o01_p_infix_table" => c_infix_table(n(2) as usize),
+    "o01_p_infix_action" => c_infix_action(n(2) as usize),
+    "o01_p_prefix_action" => c_prefix_action(n(2) as usize),
     "o01_p_higher" => c_higher(n(2) as u8),
     "o01_p_prefix_table" => c_prefix_table(),
     other => { eprintln!("unknown contract {other}"); std::process::exit(2) },
